@@ -83,7 +83,7 @@ func init() {
 		CaseTimeout: 420 * time.Second,
 		Floors: []string{"ctxn_cases_one_shared_context", "ctxn_cases_context_per_goroutine", "floor_acked_ops_ge_1000", "floor_conflicts_ge_20", "floor_overlap_matrix_complete",
 			"merges_completed", "merge_vs_local_write_overlaps", "ctxn_commits_ok", "ctxn_commits_conflicted", "partitions_linearizable",
-			"bidir_runs", "bidir_docs_with_remote_increments_merged"},
+			"bidir_runs", "bidir_docs_with_remote_increments_merged", "shared_handle_runs", "shared_handle_acked_updates"},
 		PostProcess: c16Post,
 		Assumptions: []string{
 			"absence of a race report is not absence of races: only the interleavings that the repeated randomized runs (yield injection at storage calls, GOMAXPROCS 2/8/16) produced are covered",
@@ -200,6 +200,12 @@ func c16Cases(seed uint64, tier string) []core.Case {
 	for i := 0; i < nb; i++ {
 		bmk(c16Params{Workload: "bidir", G: 2 + brng.IntN(5), Ops: 20 + brng.IntN(30), Procs: procs[i%3], Yield: []float64{0, 0.02, 0.08}[brng.IntN(3)]})
 	}
+	// one collection handle shared by all goroutines
+	bmk(c16Params{Workload: "shared-handle", G: 8, Ops: 40, Procs: 8, Yield: 0.02})
+	bmk(c16Params{Workload: "shared-handle", G: 6, Ops: 40, Procs: 2, Yield: 0})
+	for i := 0; i < nb; i++ {
+		bmk(c16Params{Workload: "shared-handle", G: 4 + brng.IntN(9), Ops: 30 + brng.IntN(40), Procs: procs[(i+1)%3], Yield: []float64{0, 0.02, 0.08}[brng.IntN(3)]})
+	}
 	return cs
 }
 
@@ -218,6 +224,8 @@ func c16Run(ctx context.Context, c core.Case, r *core.Rec) {
 		c16RunReplicator(ctx, c, p, r)
 	case "bidir":
 		c16RunBidir(ctx, c, p, r)
+	case "shared-handle":
+		c16RunSharedHandle(ctx, c, p, r)
 	case "ctxn":
 		c16RunCtxn(ctx, c, p, r)
 	default:
